@@ -22,7 +22,11 @@ CHECKS.append(chk("C16", "exploration",
     "Generated single-writer histories over all rows-per-object settings and cache sizes; after every commit the version is walked with harness-owned decoders (existence, decodability, link-vector shape, strict key order under an independent comparator, recorded size) and re-read by a fresh read-only connection whose rows, point lookups and entry-level dump (timestamps, offsets, previous-version names) must equal the writer's in-memory tree; generated nodes go through the node codec and back; the store flags any name re-written with different bytes; no-op statements must add zero PUTs. No counterexample in N generated cases; not a proof of absence.",
     "property-based testing (rapid): round-trip + differential (writer vs fresh open) + invariant over request log"))
 
-for pid in ["C01","C02","C03","C04","C05","C06","C07","C08","C09","C10","C11","C12","C13","C14","C15","C17","C18","C19","C20"]:
+CHECKS.append(chk("C06", "exploration",
+    "Differential testing against SQLite itself: generated programs (INSERT/UPDATE/DELETE/SELECT grammar over keys of all classes, predicates = < <= > >= IN BETWEEN, ORDER BY asc/desc, LIMIT/OFFSET, aggregates, transactions, re-opens) run in lock-step on an s3db table (rows-per-object 2..4096, node cache sizes) and a native WITHOUT ROWID table; statement outcome classes and result rows (sequences when ordered by key, multisets otherwise) must agree after every statement. Open findings K2a/K2b/K3/K4 are steered away from by construction (counted) and reported from their witnesses.",
+    "property-based differential testing (rapid) against native SQLite"))
+
+for pid in ["C01","C02","C03","C04","C05","C07","C08","C09","C10","C11","C12","C13","C14","C15","C17","C18","C19","C20"]:
     NOT_YET[pid] = "check under construction in this session (designed in DESIGN.md section 5); not claimed until its quick tier runs clean on the unchanged tree"
 
 MANIFEST = {
